@@ -121,7 +121,7 @@ CASES['ar_fill'] = [('A',)]
 
 def ar_sort_method(a):
     a.sort()
-CASES['ar_sort_method'] = [('A',)]
+CASES['ar_sort_method'] = [('AU',)]
 
 
 def ar_squeeze_write(a141):
@@ -180,7 +180,7 @@ CASES['ar_enumerate_rows'] = [('A2',)]
 
 def ar_zip_rows(a2, b2):
     for r, s in zip(a2, b2):
-        r[0] = s[0]
+        r[0] = s[0] + 1
 CASES['ar_zip_rows'] = [('A2', 'A2')]
 
 
@@ -206,13 +206,13 @@ CASES['ar_dot_out'] = [('A2', 'A', 'A3')]
 
 def ar_array_nocopy(a):
     b = np.array(a, copy=False)
-    b[0] = 1
+    b[0] = 7
 CASES['ar_array_nocopy'] = [('A',)]
 
 
 def ar_astype_nocopy(a):
     b = a.astype(float, copy=False)
-    b[0] = 1
+    b[0] = 7
 CASES['ar_astype_nocopy'] = [('A',)]
 
 
